@@ -1,9 +1,11 @@
 """C16 -- text and CSV rendering are aligned, complete and faithful to the values (spec/Render.tla).
 
 legs: MC   TLC model-checks the two-phase renderer / table-layout mechanism (Update* ; Prepare ; Format*, the width
-           rule, frames, spacing and expansion rows) against the declarative layout property for every column of
+           rule, frames, spacing and expansion rows) and the CSV mechanism (the same renderers and row driver under
+           render_csv's own context) against the declarative layout / CSV property for every column of
            <= 2 (quick) / <= 3 (thorough) abstract values x 2^5 options x placeholder lengths 0..4 x header lengths
-           1..6; two non-vacuity runs (width rule forgetting the placeholder; expansion rule as shipped) must fail
+           1..6; three non-vacuity runs (width rule forgetting the placeholder; expansion rule as shipped; render_csv
+           inheriting the caller's text options) must fail
       S2C  Gen_Render: TLC emits abstract tables + options + the predicted layout (line widths, offsets, per cell
            left pad / text length / right pad / dot offset); the driver builds real values with those shapes, calls
            render_text / render_csv and compares the parsed layout record field by field
@@ -11,6 +13,9 @@ legs: MC   TLC model-checks the two-phase renderer / table-layout mechanism (Upd
            ledger made by beancount.scripts.example, are rendered; the output is parsed into a layout record and
            every cell is re-read; Trace_Render judges every record inside TLC (declarative predicates + the
            mechanism's prediction + read-back + CSV agreement)
+      Both formats are reached the ways the library is: render_text / render_csv with their documented options, the
+      per-format entry points beanquery.render.{text,csv}.render handed EVERY option of the record (as the application
+      does: all settings go to every format), and -- for whole query results -- a BQLShell driven by .set commands.
 """
 import concurrent.futures as cf
 import datetime
@@ -251,13 +256,48 @@ def in_domain(stypes, rows):
     return True
 
 
-def render_both(columns, rows, dcontext, opts):
-    from beanquery import query_render
-    f = io.StringIO()
-    query_render.render_text(columns, rows, dcontext, f, **opts)
+def app_settings(opts, fmt):
+    """what the application hands to EVERY per-format renderer: all its settings (Settings.todict(): boxed, expand,
+    format, narrow, nullvalue, numberify, pager, spaced, unicode, ...) -- here with the option record under test"""
+    from beanquery import shell
+    settings = shell.Settings(format=fmt).todict()
+    settings.update(opts)
+    return settings
+
+
+def render_csvs(columns, rows, dcontext, opts):
+    """the CSV renderings of one table under one option record, as [(call, text)]:
+    api = render_csv with the two options it documents; app = the per-format entry point the application dispatches
+    to, handed EVERY option of the record (the text-only ones included).  Identical texts are judged once."""
+    from beanquery import query_render, render
+    import beanquery.render.csv  # noqa: F401
     g = io.StringIO(newline='')
     query_render.render_csv(columns, rows, dcontext, g, expand=opts['expand'], nullvalue=opts['nullvalue'])
-    return f.getvalue(), g.getvalue()
+    h = io.StringIO(newline='')
+    render.csv.render(columns, rows, h, dcontext=dcontext, **app_settings(opts, 'csv'))
+    a, b = g.getvalue(), h.getvalue()
+    return [('api', a)] if a == b else [('api', a), ('app', b)]
+
+
+def render_all(columns, rows, dcontext, opts, app_text=False):
+    """-> (text, [(call, csv text), ...]).  app_text: the text too comes from the application's entry point with all
+    its settings (only for non-empty results: the application prints '(empty)' instead of an empty table)"""
+    from beanquery import query_render, render
+    import beanquery.render.text  # noqa: F401
+    f = io.StringIO()
+    if app_text and rows:
+        render.text.render(columns, rows, f, dcontext=dcontext, **app_settings(opts, 'text'))
+    else:
+        query_render.render_text(columns, rows, dcontext, f, **opts)
+    return f.getvalue(), render_csvs(columns, rows, dcontext, opts)
+
+
+def project_csvs(csvs, ptypes):
+    return [dict(rp.parse_csv(text, ptypes), call=call) for call, text in csvs]
+
+
+def csv_excerpt(csvs):
+    return ''.join('[%s]\n%s' % (call, text[:1500]) for call, text in csvs)
 
 
 def features(stypes, rows, opts, dcontext):
@@ -289,7 +329,7 @@ def features(stypes, rows, opts, dcontext):
     return feats, table
 
 
-def build_record(cid, cols, rows, dcontext, opts, tmap, out=None):
+def build_record(cid, cols, rows, dcontext, opts, tmap):
     """render and project one table -> trace record (dict) or None when outside the domain"""
     import beanquery
     stypes = spec_types(cols, tmap)
@@ -305,17 +345,18 @@ def build_record(cid, cols, rows, dcontext, opts, tmap, out=None):
             t = 'opaque'
         tab.append({'t': t, 'hl': len(name), 'hx': rp.cphex(name), 'vals': vals})
     feats, tfeats = features(stypes, rows, opts, dcontext)
-    text, csvtext = render_both(columns, rows, dcontext, opts) if out is None else out
+    text, csvs = render_all(columns, rows, dcontext, opts, app_text=cid % 2 == 0)
     ptypes = [('str' if t['t'] == 'opaque' else st) for t, st in zip(tab, stypes)]
     ptext = rp.parse_text(text, ptypes, opts['listsep'])
-    pcsv = rp.parse_csv(csvtext, ptypes)
+    pcsv = project_csvs(csvs, ptypes)
     ptext.pop('why', None)
     rec = {'id': cid,
            'o': {'boxed': opts['boxed'], 'unicode': opts['unicode'], 'spaced': opts['spaced'], 'expand': opts['expand'],
                  'narrow': opts['narrow'], 'nl': len(opts['nullvalue']), 'sl': len(opts['listsep']),
                  'nv': rp.cphex(opts['nullvalue'])},
            'tab': tab, 'text': ptext, 'csv': pcsv}
-    meta = {'feats': [sorted(f) for f in feats], 'tfeats': sorted(tfeats), 'stypes': stypes, 'text': text, 'csv': csvtext}
+    meta = {'feats': [sorted(f) for f in feats], 'tfeats': sorted(tfeats), 'stypes': stypes, 'text': text,
+            'csv': csv_excerpt(csvs), 'calls': [call for call, _ in csvs]}
     return rec, meta
 
 
@@ -416,9 +457,10 @@ def judge_file(ctx, path, metas, what, leg='C2S'):
                 feats = meta['feats'][c - 1]
             if feats:
                 key += ':' + '+'.join(feats)
-            ctx.violation(key, 'clause %s of the layout property fails for column %d' % (clause, c),
-                          {'kind': 'table', 'table': case, 'clause': clause, 'column': c, 'what': what},
-                          leg, None, {'text': meta['text'][:3000], 'csv': meta['csv'][:1500]})
+            desc = (dict(case, kind='ledger', clause=clause, column=c, what=what) if 'query' in case else
+                    {'kind': 'table', 'table': case, 'clause': clause, 'column': c, 'what': what})
+            ctx.violation(key, 'clause %s of the layout property fails for column %d' % (clause, c), desc,
+                          leg, None, {'text': meta['text'][:3000], 'csv': meta['csv'][:3200]})
     return len(rejected)
 
 
@@ -526,15 +568,47 @@ def example_ledger(ctx):
     return entries, errors, options
 
 
+SHELL_BOOLS = ('boxed', 'unicode', 'spaced', 'expand', 'narrow')
+
+
+def shell_outputs(sh, out, query, opts):
+    """the application itself: .set <every option of the record> ; .set format text|csv ; the query -> what it printed.
+    The list separator is not a shell setting (the shell renders with the default one)."""
+    import shlex
+    for name in SHELL_BOOLS:
+        sh.onecmd('.set %s %s' % (name, 'true' if opts[name] else 'false'))
+    sh.onecmd('.set nullvalue %s' % shlex.quote(opts['nullvalue']))
+    res = {}
+    for fmt in ('text', 'csv'):
+        sh.onecmd('.set format %s' % fmt)
+        out.seek(0)
+        out.truncate()
+        sh.onecmd(query)
+        res[fmt] = out.getvalue()
+    out.seek(0)
+    out.truncate()
+    got = sh.settings.todict()
+    if any(got[k] != opts[k] for k in SHELL_BOOLS + ('nullvalue',)):
+        raise MachineryError('shell settings %r do not hold the option record %r' % (got, opts))
+    return res['text'], [('shell', res['csv'])]
+
+
 def c2s_ledger(ctx, per_query):
+    """results of real queries on a generated ledger.  The whole result of every query is rendered by the APPLICATION
+    (a BQLShell on the same ledger, options given through .set, both formats); random slices of it by the renderers
+    directly (api and app calls) under random option records."""
     import beanquery
+    from beanquery import shell
     entries, errors, options = example_ledger(ctx)
     conn = beanquery.connect('beancount:', entries=entries, errors=errors, options=options)
+    out = io.StringIO(newline='')
+    sh = shell.BQLShell(None, out)
+    sh.context.attach('beancount:', entries=entries, errors=errors, options=options)
     dcontext = options['dcontext']
     rng = ctx.rng
     records, metas = [], {}
     cid = 10 ** 6
-    nq = 0
+    nq = nshell = 0
     for q in QUERIES:
         limit = ctx.pick(12, 60)
         try:
@@ -548,6 +622,10 @@ def c2s_ledger(ctx, per_query):
             opts = rnd_options(rng)
             lo = rng.randint(0, max(0, len(rows) - 1))
             part = rows[lo:lo + rng.choice([1, 3, 6, 12, 60])] if k else rows
+            via_shell = k == 0 and bool(rows)
+            if via_shell:
+                lo = 0
+                opts['listsep'] = '  '
             cid += 1
             stypes = [rp.spec_type(col.datatype) for col in desc]
             if not in_domain(stypes, part):
@@ -560,7 +638,13 @@ def c2s_ledger(ctx, per_query):
                             'hx': rp.cphex(col.name), 'vals': vals})
             feats, tfeats = features(stypes, part, opts, dcontext)
             try:
-                text, csvtext = render_both(list(desc), part, dcontext, opts)
+                if via_shell:
+                    text, csvs = shell_outputs(sh, out, q % limit, opts)
+                    nshell += 1
+                else:
+                    text, csvs = render_all(list(desc), part, dcontext, opts, app_text=k % 2 == 0)
+            except MachineryError:
+                raise
             except Exception as ex:  # noqa
                 ctx.violation('exception:%s' % type(ex).__name__, 'rendering raises %r' % ex,
                               {'kind': 'ledger', 'query': q % limit, 'opts': opts}, 'C2S')
@@ -571,14 +655,18 @@ def c2s_ledger(ctx, per_query):
             rec = {'id': cid, 'o': {'boxed': opts['boxed'], 'unicode': opts['unicode'], 'spaced': opts['spaced'],
                                     'expand': opts['expand'], 'narrow': opts['narrow'], 'nl': len(opts['nullvalue']),
                                     'sl': len(opts['listsep']), 'nv': rp.cphex(opts['nullvalue'])},
-                   'tab': tab, 'text': ptext, 'csv': rp.parse_csv(csvtext, ptypes)}
+                   'tab': tab, 'text': ptext, 'csv': project_csvs(csvs, ptypes)}
             records.append(rec)
             metas[cid] = ({'feats': [sorted(f) for f in feats], 'tfeats': sorted(tfeats), 'stypes': stypes, 'text': text,
-                           'csv': csvtext}, {'query': q % limit, 'slice': [lo, len(part)], 'opts': opts, 'seed': ctx.seed})
-            ctx.case(json.dumps([q, lo, len(part), rec['o']]), bool(part))
+                           'csv': csv_excerpt(csvs)},
+                          {'query': q % limit, 'slice': [lo, len(part)], 'opts': opts, 'seed': ctx.seed,
+                           'via': 'shell' if via_shell else 'renderers'})
+            ctx.case(json.dumps([q, lo, len(part), rec['o'], via_shell]), bool(part))
             if len(records) == 2:
                 ctx.sample({'leg': 'C2S-ledger', 'query': q % limit, 'options': rec['o'], 'text': text[:500]})
-    return records, metas, nq
+    if not nshell:
+        raise MachineryError('vacuity: no query result went through the shell')
+    return records, metas, nq, nshell
 
 
 def leg_c2s(ctx):
@@ -588,10 +676,10 @@ def leg_c2s(ctx):
     ctx.traces += len(records) - nrej
     ncells = sum(len(c['vals']) for r in records for c in r['tab'])
     ctx.leg('C2S', random_tables=len(records), cells=ncells, rejected=nrej, columns_by_type=covered)
-    lrecords, lmetas, nq = c2s_ledger(ctx, ctx.pick(6, 40))
+    lrecords, lmetas, nq, nshell = c2s_ledger(ctx, ctx.pick(6, 40))
     nrej2 = run_chunks(ctx, lrecords, lmetas, 'ledger query results', ctx.pick(2, 8))
     ctx.traces += len(lrecords) - nrej2
-    ctx.leg('C2S', ledger_queries=nq, ledger_renderings=len(lrecords), ledger_rejected=nrej2)
+    ctx.leg('C2S', ledger_queries=nq, ledger_renderings=len(lrecords), ledger_through_shell=nshell, ledger_rejected=nrej2)
 
 
 # ---- S2C -----------------------------------------------------------------------------------------------------
@@ -667,7 +755,7 @@ def replay_gen(ctx, case, stats):
                       {'kind': 'gen', 'gen': case}, 'S2C', exp, got)
         return False
     try:
-        text, csvtext = render_both(columns, rows, dcontext, opts)
+        text, csvs = render_all(columns, rows, dcontext, opts, app_text=stats.get('n', 0) % 2 == 0)
     except Exception as ex:  # noqa
         return bad('exception:%s' % type(ex).__name__, 0, None, repr(ex))
     pt = rp.parse_text(text, stypes, opts['listsep'])
@@ -709,13 +797,16 @@ def replay_gen(ctx, case, stats):
                 return bad('cell:%s' % kind, c, exp, got)
             if kind == 'space' and oc['n'] != 0:
                 return bad('space', c, 0, oc['n'])
-    pc = rp.parse_csv(csvtext, stypes)
-    if not pc['ok'] or len(pc['recs']) != len(case['csv']) or any(n != len(cols) for n in pc['nf']) or len(pc['hdr']) != len(cols):
-        return bad('csvshape', 0, [len(case['csv']), len(cols)], [len(pc['recs']), pc['nf'][:5]])
-    for q, (wl, rec) in enumerate(zip(case['csv'], pc['recs'])):
-        for c, (n, f) in enumerate(zip(wl, rec), 1):
-            if types_[c - 1] in EXACT and f['n'] != n:
-                return bad('csvfield', c, n, f['n'])
+    for call, csvtext in csvs:      # every way render_csv is reached must write what the CSV mechanism of the spec says
+        sfx2 = '' if call == 'api' else '@' + call
+        pc = rp.parse_csv(csvtext, stypes)
+        if (not pc['ok'] or len(pc['recs']) != len(case['csv']) or any(n != len(cols) for n in pc['nf'])
+                or len(pc['hdr']) != len(cols)):
+            return bad('csvshape' + sfx2, 0, [len(case['csv']), len(cols)], [len(pc['recs']), pc['nf'][:5]])
+        for q, (wl, rec) in enumerate(zip(case['csv'], pc['recs'])):
+            for c, (n, f) in enumerate(zip(wl, rec), 1):
+                if types_[c - 1] in EXACT and f['n'] != n:
+                    return bad('csvfield' + sfx2, c, n, f['n'])
     return True
 
 
@@ -758,8 +849,12 @@ def leg_mc(ctx):
         if res.violated:
             ctx.violation('spec:sep:' + ','.join(res.violated), 'TLC violates the layout property (separator lengths 0, 1, 3)',
                           {'kind': 'mc', 'behaviour': res.behaviour[:3000]}, 'MC')
-    ctx.tlc('MC_Render', 'MC_Render_nonull.cfg', leg='MC-nonvacuity', expect_violation='OffsetsInv', workers=4)
-    ctx.tlc('MC_Render', 'MC_Render_shipped.cfg', leg='MC-shipped', expect_violation='SkeletonInv', workers=4)
+    # non-vacuity: three deliberately broken mechanisms (width rule without the placeholder; expansion rule that lets
+    # a row vanish; render_csv inheriting the caller's text options) -- TLC must refute each
+    runs = [('MC_Render_nonull.cfg', 'MC-nonvacuity', 'OffsetsInv'), ('MC_Render_shipped.cfg', 'MC-shipped', 'SkeletonInv'),
+            ('MC_Render_csvinherit.cfg', 'MC-csv-inherit', 'CsvInv')]
+    with cf.ThreadPoolExecutor(max_workers=len(runs)) as ex:
+        list(ex.map(lambda r: ctx.tlc('MC_Render', r[0], leg=r[1], expect_violation=r[2], workers=4), runs))
 
 
 def run(ctx):
